@@ -112,13 +112,19 @@ class DtString(Harness):
         self.symbolic = ["ticks, NaT positions"]; self.choice_dims = ["length"]
     def build(self, ctx):
         n = choice("n", range(self.maxn + 1))
-        x = mk_col(self.unit, n, "x", cls="Vector")
-        for c in x.cells:
-            ctx.assume(z3.Or(c == INT64_MIN, c >= BV(-354285 * (1 if self.unit == "D" else 86400 * 10**6))),
-                       note="to_string/from_string round trip: years >= 1000 (the C library's %Y does not zero-pad smaller years, so the format is ambiguous there)")
         if self.unit == "us":
-            for c in x.cells: ctx.assume(z3.Or(c == INT64_MIN, z3.URem(c, BV(10**6)) == 0) if False else z3.Or(c == INT64_MIN, z3.SRem(c, BV(10**6)) == 0),
-                                         note="whole seconds (the format has no fractional part)")
+            # whole seconds (the format has no fractional part), each cell given by its digits
+            cells = []
+            for i in range(n):
+                v, day = symdt.sym_datetime_us(ctx, f"x{i}")
+                ctx.assume(z3.Or(v == INT64_MIN, day >= -354285), note="to_string/from_string round trip: years >= 1000 (the C library's %Y does not zero-pad smaller years, so the format is ambiguous there)")
+                cells.append(v)
+            x = Arr("datetime64[us]", cells, "Vector")
+        else:
+            x = mk_col(self.unit, n, "x", cls="Vector")
+            for c in x.cells:
+                ctx.assume(z3.Or(c == INT64_MIN, c >= BV(-354285)),
+                           note="to_string/from_string round trip: years >= 1000 (the C library's %Y does not zero-pad smaller years, so the format is ambiguous there)")
         return {"x": x, "fn": "to_string", "args": ["%Y-%m-%d %H:%M:%S"], "roundtrip": True}
     def spec(self, inp, out):
         if isinstance(out, Raised): return [(f"does not raise ({out.type}: {out.msg[:80]})", T(False))]
@@ -282,7 +288,7 @@ def harnesses(tier):
         for unit in (["D", "us"] if not q else (["us"] if fn in TIME_OF_DAY else ["D"])):
             if fn in TIME_OF_DAY and unit == "D": continue
             hs.append(DtExtract(fn, unit, n))
-    hs += [DtReplace("D", 3), DtReplace("us", 2 if q else 3), DtString("D", n)]
+    hs += [DtReplace("D", 3), DtReplace("us", 2 if q else 3), DtString("D", n), DtString("us", 2)]
     for fn in ("findall", "fullmatch", "match", "search", "split", "sub", "subn"):
         hs.append(Regex(fn, 2))
     hs.append(StrProxy(2))
